@@ -79,6 +79,32 @@ def _c16_nontrivial(r):
     return False
 
 
+def _shrink_sim(op):
+    head, _, script = op.partition(" daemon ")
+    cmds = ("daemon " + script).split(" ; ")
+    for k in range(len(cmds) - 1, 0, -1):
+        if cmds[k].startswith(("daemon", "link")):
+            continue
+        yield head + " " + " ; ".join(cmds[:k] + cmds[k + 1:])
+
+
+shrinkers["sim"] = _shrink_sim
+
+
+def _sim_nontrivial(r):
+    # at least one packet sent and one client event observed
+    return " tx " in r["impl"] and " ev " in r["impl"]
+
+
+def _sim_extra(recs):
+    its = sum(r["impl"].count("it ") for r in recs)
+    tx = sum(r["impl"].count(" tx ") for r in recs)
+    ev = sum(r["impl"].count(" ev ") for r in recs)
+    nomodel = sum(1 for r in recs if r["model"] == "nomodel")
+    return dict(loop_iterations_observed=its, packets_observed=tx, client_events_observed=ev,
+                histories_compared_with_model=len(recs) - nomodel, histories_monitor_only=nomodel)
+
+
 def _c01_nontrivial(r):
     # the decoder got past the header: a message with at least one entry, or an error on
     # a datagram that has at least a full header
@@ -103,6 +129,32 @@ def _c01_extra(recs):
 mutators["decode"] = _mutate_hex_op
 
 CONFIG = {
+    "C19": dict(
+        modules=["Mdns.Props.C19Daemon"],
+        model_files="Mdns/Model/Sched.lean",
+        nontrivial=_sim_nontrivial,
+        extra_evidence=_sim_extra,
+        rule="histories on real daemon threads under the simulation seams (virtual clock, simulated interfaces, captured "
+             "egress), generated from VERIF_SEED by harness/src/c19.rs: 1-3 interfaces (v4/v6), browse / browse again / "
+             "browse_cache / stop_browse / resolve_hostname (with and without time-out, mixed case) / stop at arbitrary "
+             "times around the schedule's marks, interface-check interval default / large / zero, observed event-driven "
+             "over horizons up to 3.5 days of virtual time. Non-trivial = at least one packet and one client event. "
+             "Distinct = distinct scripts.",
+        level_text="The scheduler model (search commands, retransmission queue, timers, resolver time-outs, interface-check "
+                   "timer) predicts every query (per interface and family), every search event and every requested wake-up "
+                   "of these histories exactly; on it `one_schedule` (at most one queued retransmission per type/host in "
+                   "every reachable state, any history) and the back-off step contracts are Lean theorems. The monitor checks "
+                   "the back-off gaps 1,2,4,..,3600 s on the real packets.",
+        level_note="Trusted: Lean kernel; axioms propext/Classical.choice/Quot.sound; hand model tied to the code by differential "
+                   "comparison of whole histories; simulation seams bypass poll/recv/send/if_addrs/fastrand/system time; "
+                   "histories here have no responders (empty cache) - queries caused by cache refresh, follow-ups, new "
+                   "interfaces and verify are covered by other properties' checks.",
+        partial=["the chain theorem over whole traces (k-th gap >= k-th delay) is stated as step contracts "
+                 "(browse_starts_schedule, rerun_backs_off, not_due_not_sent) plus the invariant one_schedule, not yet as "
+                 "one theorem over runAll"],
+        assumptions=["event receivers stay alive (a dropped receiver ends the search early: not generated here)",
+                     "one `now` per loop iteration"],
+    ),
     "C01": dict(
         modules=["Mdns.Props.C01"],
         model_files="Mdns/Model/Decode.lean",
